@@ -22,7 +22,9 @@ RULE = (
     "circuit: 1-4 wires (int/str/mixed labels, random order), depth<=10 over the named-gate table + GlobalPhase/MultiRZ/PauliRot/"
     "QubitUnitary/MultiControlledX/adjoint, 1-4 channels at random positions (thermal relaxation with tg<=t1), optional "
     "QubitDensityMatrix on a wire subset, optional leading BasisState/StatePrep, optional broadcast gate parameter, device wires "
-    "none/same/permuted/with idle extras, interfaces numpy/autograd/jax/torch; kernel9: 9 wires with a 9-wire MultiControlledX "
+    "none/same/permuted/with idle extras, interfaces numpy/autograd/jax/torch; a third of the circuits start from a generic product "
+    "state + entanglers and measure LinearCombination / SparseHamiltonian / Hermitian / Sum expectation values (csr, full-matrix, "
+    "sum-of-terms, diagonalising-gates paths); kernel9: 9 wires with a 9-wire MultiControlledX "
     "(custom real-symmetric kernel) between channels; readout: readout_prob device option = BitFlip on each measured wire. Oracle: "
     "pv.ref.kraus (numpy Kraus sums with reference channel definitions, gate matrices from pv.ref.gates) for every measurement "
     "(1e-8, +2e-7 per damping channel at gamma=1) and the full density matrix: Hermitian (1e-10), trace 1 (1e-9), min eigenvalue >= -1e-10. Non-trivial: point with "
@@ -173,6 +175,31 @@ def _circuit(draw):
 
 
 @st.composite
+def _obs_circuit(draw):
+    """Generic (non-symmetric) noisy state, measured through every expectation-value path of qubit_mixed.measure."""
+    n = draw(st.integers(2, 4))
+    wires = draw(gen.wire_labels(n))
+    ops = [{"op": "RY", "p": [draw(gen.generic_angles())], "w": [w]} for w in wires]
+    ops += [{"op": "RZ", "p": [draw(gen.generic_angles())], "w": [w]} for w in wires]
+    ops += draw(gen.op_list(wires, gen.GATES2, 3, min_depth=1, ang=gen.generic_angles(), extras=False, p_derive=0.0))
+    for _ in range(draw(st.integers(1, 2))):
+        ops.insert(draw(st.integers(2 * n, len(ops))), draw(channel(wires)))
+    batch = draw(st.sampled_from([None, None, 1, 2]))
+    if batch:
+        ops.insert(draw(st.integers(0, len(ops))), {"op": draw(st.sampled_from(["RX", "RZ", "PhaseShift"])),
+                                                    "p": [draw(st.lists(gen.generic_angles(), min_size=batch, max_size=batch))], "w": draw(gen.subset(wires, 1))})
+    sub = st.integers(1, min(n, 3)).flatmap(lambda k: gen.subset(wires, k))
+    lin = st.lists(st.tuples(gen.floats01, gen.pauli_word_obs(wires)), min_size=1, max_size=4).map(
+        lambda ts: {"op": "lincomb", "coeffs": [c for c, _ in ts], "operands": [o for _, o in ts]})
+    sparse = st.tuples(gen.float_list(5), sub).map(lambda t: {"op": "SparseHamiltonian", "H": t[0], "w": t[1]})
+    obs = st.one_of(lin, lin, sparse, sparse, gen.observable(wires))
+    meas = draw(st.lists(st.one_of(obs.map(lambda o: {"mp": "expval", "obs": o}), gen.observable(wires).map(lambda o: {"mp": "var", "obs": o})),
+                         min_size=1, max_size=3)) + [{"mp": "state"}]
+    return {"kind": "circuit", "ops": ops, "meas": meas, "wires": wires, "dev_wires": _dev_wires(draw, wires),
+            "interface": draw(st.sampled_from(["numpy"] * 8 + ["autograd", "autograd", "jax", "torch"]))}
+
+
+@st.composite
 def _kernel9(draw):
     wires = list(draw(st.permutations(list(range(9)) if draw(st.booleans()) else [f"q{i}" for i in range(9)])))
     ops = [{"op": "RY", "p": [draw(gen.generic_angles())], "w": [w]} for w in wires]
@@ -189,19 +216,20 @@ def _kernel9(draw):
 def _readout(draw):
     n = draw(st.integers(1, 3))
     wires = draw(gen.wire_labels(n))
-    ops = draw(gen.op_list(wires, None, 6, extras=False, p_derive=0.1))
+    ops = [{"op": "RY", "p": [draw(gen.generic_angles())], "w": [w]} for w in wires]
+    ops += draw(gen.op_list(wires, None, 5, extras=False, p_derive=0.1, ang=gen.generic_angles()))
     if draw(st.booleans()):
         ops.insert(draw(st.integers(0, len(ops))), draw(channel(wires, names=ONE_PARAM)))
     sub = st.integers(1, n).flatmap(lambda k: gen.subset(wires, k))
-    meas = draw(st.lists(st.one_of(sub.map(lambda w: {"mp": "probs", "w": w}),
+    meas = draw(st.lists(st.one_of(sub.map(lambda w: {"mp": "probs", "w": w}), st.just({"mp": "probs", "w": list(wires)}),
                                    gen.pauli_word_obs(wires).map(lambda o: {"mp": "expval", "obs": o})), min_size=1, max_size=3))
     return {"kind": "readout", "ops": ops, "meas": meas, "wires": wires, "dev_wires": list(draw(st.permutations(wires))),
-            "interface": "numpy", "readout_prob": draw(st.one_of(st.sampled_from([0.0, 0.1, 0.5, 1.0, 1, 0]), st.floats(0, 1).map(lambda x: round(x, 4))))}
+            "interface": "numpy", "readout_prob": draw(st.one_of(st.sampled_from([0.0, 0.1, 0.5, 1.0, 1, 0]), st.floats(0.01, 0.99).map(lambda x: round(x, 4))))}
 
 
 def strategy(tier):
     return st.one_of(_point(), _point(), _point(), _point(), _circuit(), _circuit(), _circuit(), _circuit(), _circuit(), _circuit(),
-                     _circuit(), _circuit(), _circuit(), _circuit(), _circuit(), _circuit(), _readout(),
+                     _circuit(), _circuit(), _circuit(), _obs_circuit(), _obs_circuit(), _obs_circuit(), _readout(), _readout(),
                      *([_kernel9()] if tier == "thorough" else []))
 
 
@@ -501,7 +529,7 @@ def _check_circuit(spec):
         elif o["op"] in kr.CHANNELS and seen_ent and _strength(o) > 0:
             nt = True
     labels = [spec["kind"], "iface:" + spec["interface"], "devw:" + ("given" if dev_wires else "none")] + \
-             ["mp:" + m["mp"] for m in spec["meas"]] + ["ch:" + c for c in chans] + (["batched"] if batch else []) + \
+             ["mp:" + m["mp"] + (":" + m["obs"]["op"] if m.get("obs") and m["mp"] == "expval" else "") for m in spec["meas"]] + ["ch:" + c for c in chans] + (["batched"] if batch else []) + \
              [o["op"] for o in spec["ops"] if o["op"] in ("QubitDensityMatrix", "StatePrep", "BasisState")]
     return Result(nt, labels=labels)
 
